@@ -84,6 +84,13 @@ func tuneForProperty(c *Config, prop string, r *core.Rand) {
 		c.DowntimeJailSecs = int64([]int{60, 1800}[r.Intn(2)])
 		c.MaxJailedBlocks = int64(r.Range(3, 10))
 	}
+	if prop == "C43" && r.Chance(0.6) {
+		// the features that add ACL keys at activation make every later export un-importable (a
+		// recorded finding); leave them out in most runs so that the rest of the import is reached
+		for _, f := range []string{"BLOCK", "RSCAL", "PerChainRTTM"} {
+			delete(c.Features, f)
+		}
+	}
 	// staggered activation: some features are left unscheduled in genesis and arrive by upgrade
 	// transactions during the run (verdict-bearing only where the statement mentions activation)
 	switch prop {
@@ -228,12 +235,14 @@ func (g *generator) genInterf(phase string) Interf {
 		q.Tx = tx
 	default:
 		q.Kind = "query"
-		q.Path = []string{"balance", "account", "node", "app", "nodes", "apps", "params", "supply", "claims", "upgrade", "store", "version"}[r.Intn(12)]
+		paths := []string{"balance", "account", "node", "app", "nodes", "apps", "params", "supply", "claims", "upgrade", "store", "version",
+			"custom_app", "custom_app", "custom_apps", "custom_node", "custom_nodes", "custom_balance", "custom_params"}
+		q.Path = paths[r.Intn(len(paths))]
 		q.Height = int64([]int{0, 0, 1, 2, 5, 9}[r.Intn(6)])
 		switch q.Path {
-		case "node":
+		case "node", "custom_node":
 			q.Key = nodeBase + r.Intn(g.s.cfg.NNodes)
-		case "app":
+		case "app", "custom_app":
 			q.Key = appBase + r.Intn(g.s.cfg.NApps)
 		default:
 			q.Key = g.pick(g.allKeys())
@@ -520,6 +529,27 @@ func (g *generator) genParam() (string, string) {
 		{"auth/MaxMemoCharacters", q(int64(r.Range(10, 200)))},
 		{"pos/UnstakingTime", q(int64(r.Range(1, 7200)) * 1_000_000_000)},
 		{"pos/DowntimeJailDuration", q(int64(r.Range(60, 7200)) * 1_000_000_000)},
+	}
+	if g.s.prop == "C43" {
+		// an export is re-imported through genesis validation: keep parameter changes inside the
+		// domain a genesis file may carry
+		opts = []pv{
+			{"pos/MaxValidators", q(int64(r.Range(1, c.NNodes+2)))},
+			{"pos/StakeMinimum", q(c.StakeMinimum + int64(r.Range(0, 6))*1_000_000)},
+			{"pos/BlocksPerSession", q(int64(r.Range(2, 6)))},
+			{"pos/DAOAllocation", q(int64(r.Range(0, 50)))},
+			{"pos/ProposerPercentage", q(int64(r.Range(0, 50)))},
+			{"pos/MaxJailedBlocks", q(int64(r.Range(2, 40)))},
+			{"pos/SignedBlocksWindow", q(int64(r.Range(10, 14)))},
+			{"pos/RelaysToTokensMultiplier", q(int64(r.Range(1, 5000)))},
+			{"application/MaxApplications", q(int64(r.Range(1, 8)))},
+			{"application/BaseRelaysPerPOKT", q(int64(r.Range(1, 500)))},
+			{"pocketcore/ClaimExpiration", q(int64(r.Range(6, 40)))},
+			{"pocketcore/SessionNodeCount", q(int64(r.Range(1, 5)))},
+			{"pocketcore/ClaimSubmissionWindow", q(int64(r.Range(2, 4)))},
+			{"pos/UnstakingTime", q(int64(r.Range(1, 7200)) * 1_000_000_000)},
+			{"pos/DowntimeJailDuration", q(int64(r.Range(60, 7200)) * 1_000_000_000)},
+		}
 	}
 	o := opts[r.Intn(len(opts))]
 	if r.Chance(0.05) {
